@@ -140,11 +140,11 @@ Definition is_embedded_leg_clear (c : cmd) : bool :=
 Definition post_commit_phase (p : N) : bool :=
   (p =? PhaseVerifyNewLeader) || (p =? PhaseVerifyMembership) || (p =? PhaseClearFence).
 
-(* the drain proof stored in [t] is complete and matches the current row [m] of the channel,
-   whose write fence is held by [t], is the one the request expects and has not expired at [now] *)
-Definition cutover_proof_matches (t : task) (m : runtime_meta) (h : trans) (now : Z) : bool :=
+(* the drain proof stored in [t] is complete and matches the current row [m] of the channel
+   (write-fence version, channel epoch, leader epoch, leader), the fence is held by [t], is the
+   one the request expects and has not expired at [now] *)
+Definition cutover_proof_core (t : task) (m : runtime_meta) (g : rguard) (now : Z) : bool :=
   let p := t_proof t in
-  let g := tr_rguard h in
   proof_hasAny p && negb (proof_hasPartial p)
   && negb (rg_expected_fence_version g =? 0)
   && (pf_drained_fence_version p =? rm_write_fence_version m)
@@ -156,8 +156,12 @@ Definition cutover_proof_matches (t : task) (m : runtime_meta) (h : trans) (now 
   && bytes_eqb (rm_write_fence_token m) (t_task_id t)
   && bytes_eqb (t_fence_token t) (t_task_id t)
   && (t_fence_version t =? rm_write_fence_version m)
-  && (now <=? rm_write_fence_until_ms m)%Z
-  && tguard_matches (tr_guard h) t && rguard_matches g m.
+  && (now <=? rm_write_fence_until_ms m)%Z.
+
+(* ... and the request's optimistic guards name exactly these rows *)
+Definition cutover_proof_matches (t : task) (m : runtime_meta) (h : trans) (now : Z) : bool :=
+  cutover_proof_core t m (tr_rguard h) now
+  && tguard_matches (tr_guard h) t && rguard_matches (tr_rguard h) m.
 
 Definition commit_clause (p : snap) (c : cmd) : bool :=
   match c with
